@@ -26,6 +26,7 @@ RULE += (' Also: body failures of every standard type incl. instances of Excepti
 RULE += (' Also: class managers and lease copies are falsy.')
 RULE += (' Also: managers that are awaitable as well (being awaited is reported).')
 RULE += (' Also: managers swallowing every BaseException the body raises.')
+RULE += (' Also: generator functions of managers defined as methods and taken from the second of two instances.')
 RULE += (' Also: decorated functions whose RESULT is an awaitable object (handed to the caller as it is, never awaited by the wrapper).')
 RULE += (' Also: bodies raising subclasses of GeneratorExit / StopAsyncIteration.')
 RULE += (' Also: the decorated function as a plain function that works when called and returns an awaitable.')
@@ -72,7 +73,7 @@ def cases(tier, seed, shard, nshards):
                # report a Stop(Async)Iteration that escaped): still the context's replacement, whatever the chaining
                "translate_runtime": rng.random() < 0.4,
                "while_handling": rng.random() < 0.3,
-               "precreate": rng.random() < 0.25, "result_job": rng.random() < 0.25}
+               "precreate": rng.random() < 0.25, "manager_method": rng.random() < 0.2, "result_job": rng.random() < 0.25}
 
 
 BodyError = Planned  # the body's failure: one of the PLANNED family, chosen per scenario
@@ -154,8 +155,12 @@ def execute(case, choose, cancel_at=None):
         async def _hook(*args):
             return "the hook ran"
 
+        owners = []
+
         @A.contextmanager
-        async def manager(hook=None):
+        async def manager(*args):
+            if case.get("manager_method") and (not args or args[0] is not owners[1]):
+                CTX.foreign.append("the manager's generator function ran for another instance than the one it was taken from")
             counter["gid"] += 1
             gid = counter["gid"]
             ev.append((CTX.current, "enter", gid))
@@ -178,6 +183,13 @@ def execute(case, choose, cancel_at=None):
 
         # (a manager taking a single coroutine function as ITS argument - a notification hook: an argument like any other)
         deco = manager(_hook) if case.get("hook_arg") else manager()
+        if case.get("manager_method"):
+            # the generator function is a METHOD: defined in a class body and taken from an instance - from the second of
+            # two instances, after the first one was asked for it as well
+            Tracer = type("Tracer", (), {"span": manager})
+            owners[:] = [Tracer(), Tracer()]
+            owners[0].span
+            deco = owners[1].span(_hook) if case.get("hook_arg") else owners[1].span()
     elif case["manager"] == "lease":
         class Lease(A.ContextDecorator):
             """Reusable but not re-entrant: hands out itself while idle and a fresh copy while in use - so what
